@@ -8,6 +8,7 @@ mod util;
 mod c17_json;
 mod c18_vpl;
 mod c20_cache;
+mod crash;
 mod c15_bbox;
 mod c04_recompress;
 mod c13_concurrent;
@@ -53,6 +54,7 @@ fn main() {
 		"c15" => c15_bbox::run(&ctx),
 		"c14" => c14_stream::run(&ctx),
 		"c17" => c17_json::run(&ctx),
+		"c12" => crash::run(&ctx),
 		"c10" | "c11" | "mvt" => mvt::run(&ctx, &cmd),
 		"c18" => c18_vpl::run(&ctx),
 		"c04" => c04_recompress::run(&ctx),
